@@ -43,7 +43,7 @@ def rand_payload_spec(rng, cs, tier):
     elif k < 18:
         n = rng.range(1, 700)
     else:
-        n = rng.range(1000, 70000 if (tier == "thorough" and rng.chance(1, 6)) else 9000)
+        n = rng.range(1000, 20000 if (tier == "thorough" and rng.chance(1, 20)) else 9000)
     n = max(0, min(n, 200000))
     if n <= 16 and rng.chance(1, 2):
         return "h" + bytes(rng.below(256) for _ in range(n)).hex()
@@ -300,10 +300,10 @@ HAND = [
 
 
 def generate(rng, tier):
-    n_ser = 700 if tier == "quick" else 5000
-    n_rt = 1200 if tier == "quick" else 9000
-    n_f = 700 if tier == "quick" else 6000
-    n_bad = 500 if tier == "quick" else 5000
+    n_ser = 700 if tier == "quick" else 4000
+    n_rt = 1200 if tier == "quick" else 7000
+    n_f = 700 if tier == "quick" else 4500
+    n_bad = 500 if tier == "quick" else 4000
     for c in HAND:
         yield c
     # 16777215 / 16777216 byte payloads: accepted / refused
